@@ -91,6 +91,14 @@ def gen_case(rng, tier):
         else:
             mask[r0, c0:c1 + 1] = 1
             mask[r0:r1 + 1, c1] = 1
+        if rng.random() < 0.15:
+            # a mask that does not have the shape of the output array (on one axis or on both): refused
+            dr, dc = rng.choice(((1, 0), (0, 1), (-1, 0), (0, -1), (1, 1), (2, -1), (0, 3)))
+            mask = np.pad(mask, ((0, max(dr, 0)), (0, max(dc, 0))))[:mask.shape[0] + dr, :mask.shape[1] + dc]
+            if mask.size == 0 or not mask.any():
+                mask = np.ones((max(oM + dr, 1), max(oK + dc, 1)), dtype=int)
+                if mask.shape == (oM, oK):
+                    mask = np.ones((oM + 1, oK), dtype=int)
     steps = [ox.plane('Pupil', amp=amp, opd=opd, px=dx, z=z, mask=None if rng.random() < 0.6 else (amp != 0).astype(int)),
              ox.dft(du, (M, K), (pM, pK), os_, mask)]
     steps[1]['explicit_pshape'] = rng.random() < 0.5
